@@ -325,6 +325,32 @@ func generate(c *drv.Ctx) {
 		}
 		c.Case(desc(ps, orders, pp))
 	}
+	// (v) reserved-byte probes: many small/medium tables, and for every record the paths obtained by
+	// putting a reserved byte right after each literal prefix / at the end of an instantiation
+	// (a '#' after a literal tail reaches the termination edge of the trie, whose slot layout is table-dependent)
+	nProbe := 400
+	if thorough {
+		nProbe = 6000
+	}
+	for n := 0; n < nProbe; n++ {
+		ps := randomTable(c, 2+c.Rng.Intn(9))
+		var pp []string
+		for _, p := range ps {
+			inst := instantiate(c, p, "abxq19")
+			for _, rb := range []string{"#", ":", "*"} {
+				pp = append(pp, inst+rb)
+				cut := c.Rng.Intn(len(inst) + 1)
+				pp = append(pp, inst[:cut]+rb+inst[cut:], inst[:cut]+rb)
+			}
+			pp = append(pp, inst)
+		}
+		orders := [][]int{make([]int, len(ps)), make([]int, len(ps))}
+		for i := range ps {
+			orders[0][i] = i
+			orders[1][i] = len(ps) - 1 - i
+		}
+		c.Case(desc(ps, orders, pp))
+	}
 	// (iv) the http.Handler built by Mux.Build: per-method tables, URL.Path lookups, NotFound
 	nMux := 40
 	if thorough {
@@ -353,7 +379,8 @@ func generate(c *drv.Ctx) {
 	}
 }
 
-var words = []string{"a", "b", "ab", "ba", "users", "user", "pets", "pet", "v1", "v2", "items", "item", "x", "y", "z", "list", "get", "a-b", "a_b", "a.b", "1", "10"}
+var words = []string{"a", "b", "ab", "ba", "users", "user", "pets", "pet", "v1", "v2", "items", "item", "x", "y", "z", "list", "get", "a-b", "a_b", "a.b", "1", "10",
+	"caf\xc3\xa9", "raw\xe9", "\xe9", "\xc3", "s", "k"}
 var names = []string{"id", "name", "x", "y", "z", "k", "petId", "uid"}
 
 func randomTable(c *drv.Ctx, size int) []Pat {
